@@ -33,6 +33,12 @@ impl SharedMemoryLimiter {
     }
 
     #[inline]
+    #[must_use]
+    pub(crate) const fn max(&self) -> usize {
+        self.max
+    }
+
+    #[inline]
     pub fn increase_usage(&self, byte_count: usize) -> Result<(), MemoryLimitExceededError> {
         let previous_usage = self.current_usage.fetch_add(byte_count, Ordering::Relaxed);
         let current_usage = previous_usage + byte_count;
